@@ -15,6 +15,7 @@ import (
 	"sort"
 	"strings"
 	"sync"
+	"time"
 
 	vh "google.golang.org/protobuf/internal/zz_verif_vh"
 	"google.golang.org/protobuf/proto"
@@ -396,14 +397,14 @@ func runC40(c *vh.Ctx) {
 	reqs := append([]*baseReq{}, linked[:nl]...)
 	nlinked := len(reqs)
 	reqs = append(reqs, randomRequests(c, c.N(5, 25))...)
-	// thorough tier: ALL parameter combinations for a seed-dependent third of the requests (at least 8 multi-file
-	// packages among them), twelve sampled combinations plus the fixed ones for the rest
+	// thorough tier: ALL parameter combinations for a seed-dependent quarter of the requests (at least 6 multi-file
+	// packages among them), eight sampled combinations plus the four fixed ones for the rest
 	full := map[int]bool{}
 	if c.Thorough() {
 		multi := 0
 		for _, i := range r.Perm(len(reqs)) {
 			isMulti := len(reqs[i].toGen) > 1
-			if (isMulti && multi < 8) || len(full) < len(reqs)/3 {
+			if (isMulti && multi < 6) || len(full) < len(reqs)/4 {
 				full[i] = true
 				if isMulti {
 					multi++
@@ -412,12 +413,21 @@ func runC40(c *vh.Ctx) {
 		}
 	}
 	_ = nlinked
+	// wall-clock budget: on an overloaded machine the run degrades to fewer requests instead of running into
+	// the timeout of bin/check (which would look like a violation)
+	start := time.Now()
+	budget := time.Duration(c.N(240, 2400)) * time.Second
 	for ri, br := range reqs {
+		if time.Since(start) > budget {
+			c.R.Notes = appendNote(c.R.Notes, fmt.Sprintf("stopped by the wall-clock budget (%v) after %d of %d requests", budget, ri, len(reqs)))
+			c.Hist("stopped-by-time-budget")
+			break
+		}
 		combos := paramCombos(br)
 		if !full[ri] {
 			// the empty parameter, the three API levels, and a seed-dependent sample of the rest
 			pick := []string{"", "default_api_level=API_OPEN", "default_api_level=API_HYBRID", "default_api_level=API_OPAQUE,annotate_code=true"}
-			for k := 0; k < c.N(2, 12); k++ {
+			for k := 0; k < c.N(2, 8); k++ {
 				pick = append(pick, combos[r.Intn(len(combos))])
 			}
 			combos = pick
